@@ -55,6 +55,15 @@ var provTable = []provSpec{
 	// the automatic request
 	{"(*app.App).IssueFailover", "store:Switchover.InitiatedAt", []string{"time.Now"}, nil, "the request's age is counted from its filing (the timeout is measured from it)", []string{"C05", "C06"}},
 	{"(*app.App).IssueFailover", "store:Switchover.InitiatedBy", []string{"Hostname"}, nil, "filed by this host", []string{"C05", "C06"}},
+	// the operator's request
+	{"(*app.App).CliSwitch", "store:Switchover.Cause", []string{"=const:manual"}, nil, "an operator's request is marked manual (automatic-only rules — the async escape hatch, the old-master filter — key on the cause)", []string{"C01", "C06", "C09"}},
+	{"(*app.App).CliSwitch", "store:Switchover.InitiatedAt", []string{"time.Now"}, nil, "the request's age counts from its filing", []string{"C06"}},
+	{"(*app.App).CliSwitch", "store:Switchover.MasterTransition", []string{"=const:failover|switchover"}, nil, "the transition is one of the two known values", []string{"C06", "C09"}},
+	{"(*app.App).CliSwitch", "store:Switchover.From", []string{}, []string{"=const:"}, "the from-host is the operator's", []string{"C14"}},
+	// loop periods
+	{"(*app.App).healthChecker", "arg:time.NewTicker:0", []string{"=field:HealthCheckInterval"}, nil, "health records are refreshed with the configured period", []string{"C05", "C15"}},
+	{"(*app.App).recoveryChecker", "arg:time.NewTicker:0", []string{"=field:RecoveryCheckInterval"}, nil, "the recovery protocol runs with the configured period", []string{"C11"}},
+	{"(*app.App).Run", "arg:time.NewTicker:0", []string{"=field:TickInterval"}, nil, "the manager loop ticks with the configured period", []string{"C02", "C05"}},
 	// session timeout handed to the client, both connect branches
 	{"dcs.NewZookeeper", "arg:github.com/go-zookeeper/zk.Connect:1", []string{"=field:SessionTimeout"}, nil, "the negotiated session timeout is the configured one on the TLS and the plain branch alike (ephemeral records disappear within it)", []string{"C15"}},
 }
@@ -174,7 +183,13 @@ func checkProducers(c *Check) {
 		for i, s := range sinks {
 			t := p.T(s.Val)
 			// constants on error paths (zero values next to a non-nil error) are not producers
-			if t.Op == "const" || mentions(p, t, "(*mysql.Node).getTestDiskUsage") {
+			wantsConst := false
+			for _, m := range sp.Must {
+				if strings.HasPrefix(m, "=const:") {
+					wantsConst = true
+				}
+			}
+			if (t.Op == "const" && !wantsConst) || mentions(p, t, "(*mysql.Node).getTestDiskUsage") {
 				continue // getTestDiskUsage: the docker test hook (test_disk_usage_file), one named exception
 			}
 			if strings.HasPrefix(sp.Sink, "ret:") {
@@ -202,11 +217,41 @@ func checkProducers(c *Check) {
 					}
 					continue
 				}
+				if strings.HasPrefix(m, "=const:") {
+					okc := false
+					for _, alt := range strings.Split(strings.TrimPrefix(m, "=const:"), "|") {
+						if derivesOnly(t, func(x *Term) bool { return x.Op == "const" }) {
+							for _, a := range t.Alts() {
+								if a.IsConst(alt) {
+									okc = true
+								}
+							}
+						}
+					}
+					// every alternative must be one of the listed constants
+					if okc {
+						for _, a := range t.Alts() {
+							if !contains(strings.Split(strings.TrimPrefix(m, "=const:"), "|"), a.Name) {
+								okc = false
+							}
+						}
+					}
+					if !okc {
+						missing = append(missing, m)
+					}
+					continue
+				}
 				if !mentions(p, t, m) {
 					missing = append(missing, m)
 				}
 			}
 			for _, m := range sp.MustNot {
+				if m == "=const:" {
+					if t.Op == "const" {
+						present = append(present, "a constant")
+					}
+					continue
+				}
 				if mentions(p, t, m) {
 					present = append(present, m)
 				}
